@@ -1020,7 +1020,7 @@ def c17_plan(pid, tier, seed, t0):
                 cid, kind = cid + ".big", kind[4:]
             if kind.startswith("names."):
                 cid, kind = cid + ".names", kind[6:]
-            if kind.startswith("deep"):
+            if kind.startswith("deep") or kind.startswith("size") or kind.startswith("shared"):
                 pre, _, kind = kind.partition(".")
                 cid = cid + "." + pre
             if c == "n-default":
